@@ -22,6 +22,7 @@ import dispatch_util as du
 import checks.C01 as c01
 
 FAIR_SIG = "UnboundedFairMailbox:sender-deactivated-while-producer-mid-link"
+ZOMBIE_SIG = "BoundedMailbox:disposed-nonempty:worker-spins-after-self-shutdown"
 
 
 def mb_cases(ctx):
@@ -171,7 +172,7 @@ def run(ctx):
     with open(os.path.join(ctx.work, "c02_mb_in.jsonl"), "w") as f:
         for c in mbc:
             f.write(json.dumps(c) + "\n")
-    for fn in ("c01_ds_out.jsonl", "c02_mb_out.jsonl", "c02_stress_out.jsonl", "c02_scen_out.jsonl", "c02_grain_out.jsonl", "c02_fair_out.jsonl"):
+    for fn in ("c01_ds_out.jsonl", "c02_mb_out.jsonl", "c02_stress_out.jsonl", "c02_scen_out.jsonl", "c02_grain_out.jsonl", "c02_fair_out.jsonl", "c02_zombie_out.jsonl", "c02_grain_reclaim_out.jsonl"):
         p = os.path.join(ctx.work, fn)
         if os.path.exists(p):
             os.remove(p)
@@ -184,7 +185,9 @@ def run(ctx):
     scen = read_jsonl(os.path.join(ctx.work, "c02_scen_out.jsonl"))
     grain = read_jsonl(os.path.join(ctx.work, "c02_grain_out.jsonl"))
     fair = read_jsonl(os.path.join(ctx.work, "c02_fair_out.jsonl"))
-    if rc != 0 or len(ds) != len(dsc) or len(mbo) != len(mbc) or not stress or not scen or not grain or not fair:
+    zombie = read_jsonl(os.path.join(ctx.work, "c02_zombie_out.jsonl"))
+    greclaim = read_jsonl(os.path.join(ctx.work, "c02_grain_reclaim_out.jsonl"))
+    if rc != 0 or len(ds) != len(dsc) or len(mbo) != len(mbc) or not stress or not scen or not grain or not fair or not zombie or not greclaim:
         ctx.tie_broken("go-harness TestVerifC02*", out[-4000:])
     if ctx.thorough:
         os.makedirs(os.path.join(ctx.work, "race"), exist_ok=True)
@@ -220,6 +223,10 @@ def run(ctx):
         elif o["duplicates"] or o["lost"] or o["overlaps"]:
             n_bad += 1
             ctx.violation("exactly-once:grain-stress", "grain: %d duplicates, %d answered-but-never-handled, %d handler overlaps" % (o["duplicates"], o["lost"], o["overlaps"]), o)
+        elif o["failed"]:
+            n_bad += 1
+            ctx.violation("exactly-once:grain-stress:unanswered", "grain: %d of %d TellGrain/AskGrain calls to an active grain failed (%s): the message was enqueued but its turn never ran or never answered" %
+                          (o["failed"], o["failed"] + o["accepted"], o["first_err"]), o)
     for o in scen:
         if not o["completed"] and not o["stalled"]:
             ctx.tie_broken("scenario %s could not be driven to its preemption point" % o["name"], o)
@@ -248,6 +255,26 @@ def run(ctx):
                           (fo["mailbox_len"], fo["mailbox_is_empty"], fo["sender_active_flag"], fo["sender_pending"], fo["later_message_from_same_sender_handled"]),
                           {"witness": "Coq C02_fair_stall_refuted / fair_witness", "go": fo})
 
+    # grain: enqueue between the empty dequeue and the reset, worker emulated with the grain's own methods
+    gr = greclaim[0] if greclaim else None
+    if gr is not None:
+        if not gr["completed"] or not gr["dequeue_was_nil"]:
+            ctx.tie_broken("grain reclaim scenario could not be driven", gr)
+        elif gr["message_stranded_idle_nonempty"] or not gr["handled"]:
+            ctx.violation("exactly-once:grain:enqueue-between-empty-dequeue-and-reset",
+                          "grain: a message enqueued while the turn owner was between its last empty dequeue and reset() is never handled (finishOrReclaim said exit=%s, state %s, mailbox non-empty)" % (gr["finishOrReclaim_said_exit"], gr["state_after"]), gr)
+    # stopped actors with a disposed, non-empty bounded mailbox
+    zo = zombie[0] if zombie else None
+    if zo is not None:
+        if not zo["completed"]:
+            ctx.tie_broken("stopped-actor scenario could not be driven", zo)
+        elif zo["worker_spins_on_stopped_actor"] or not zo["message_to_live_actor_handled"]:
+            ctx.violation(ZOMBIE_SIG,
+                          "%d actors stopped themselves (ctx.Shutdown in the handler) with messages left in their BoundedMailbox: the disposed mailbox reports Len=%s IsEmpty=%s while Dequeue returns nil, the dispatcher worker reclaims for ever (%s Dequeue calls in 100 ms); with %d workers a message accepted by a LIVE actor was %s" %
+                          (zo["stopped_actors_with_leftover_messages"], zo["mailbox_len_after_stop"], zo["mailbox_is_empty_after_stop"], zo["dequeue_calls_in_100ms_after_stop"],
+                           zo["dispatcher_workers"], "handled" if zo["message_to_live_actor_handled"] else "never handled (waited %d ms)" % zo["live_actor_wait_ms"]),
+                          {"witness": "Coq C02_disposed_bounded_refuted", "go": zo})
+
     if not ctx.coq_property():
         if not any(f.kind == "violation" for f in ctx.findings):
             ctx.proof_broken("Properties/C02.v (%s)" % getattr(ctx, "failed_at", "?"), getattr(ctx, "coq_log", ""))
@@ -259,7 +286,7 @@ def run(ctx):
     distinct |= {canon_hash(o["cfg"]) for o in stress if o.get("handled", 0) > 0}
     distinct |= {canon_hash([o["name"], o["mailbox"]]) for o in scen if o["completed"]}
     ctx.coverage.update({
-        "evaluations": len(mbc) + len(ds) + len(stress) + len(scen) + len(grain) + len(fair),
+        "evaluations": len(mbc) + len(ds) + len(stress) + len(scen) + len(grain) + len(fair) + len(zombie),
         "distinct_nontrivial": len(distinct),
         "rule": "sequential mailbox op sequences (corpus fill/drain per mailbox kind and capacity + seeded random; non-trivial = all three op kinds), stress configurations with handled messages, scenarios that reached their preemption point; distinct by canonical hash",
         "samples": [{"kind": mbc[0]["kind"], "ops": mbc[0]["ops"][:10], "outs": mbo[0]["outs"][:10]} if mbo else None,
@@ -270,9 +297,9 @@ def run(ctx):
         "scenarios": [{"name": o["name"], "mailbox": o["mailbox"], "completed": o["completed"], "stalled": o["stalled"]} for o in scen],
         "scenario_model_outcomes": sm, "exactly_once_findings": n_bad,
         "source_tie": {"embeddings_checked": tie["embeddings_checked"] if tie else None, "problems": tie["problems"] if tie else None},
-        "fair_mailbox_witness": fo,
+        "fair_mailbox_witness": fo, "stopped_actor_witness": zo, "grain_reclaim_witness": gr,
         "theorems": ["C02_contract_instance", "C02_no_duplicate", "C02_handled_was_accepted", "C02_accepted_accounted", "C02_single_consumer",
-                     "C02_wake_invariant", "C02_no_lost_wakeup", "C02_progress_partial", "C02_fair_stall_refuted"],
+                     "C02_wake_invariant", "C02_no_lost_wakeup", "C02_progress_partial", "C02_fair_stall_refuted", "C02_disposed_bounded_refuted"],
     })
 
 
